@@ -215,6 +215,20 @@ func (h *Host) EnvFuns() map[string]*ref.V {
 			return val.Num(x[0].Num().V + fk.k)
 		}))
 	}
+	add(&ref.Sig{Name: "gs", Params: []*gen.Ty{N}, Ret: gen.Str, Impl: func(ev *ref.Eval, x []*ref.V) (*ref.V, *ref.Fail) {
+		ev.Trace = append(ev.Trace, fmt.Sprintf("gs(%s)", x[0].Describe()))
+		return ref.StrV("gs"), nil
+	}}, val.Fun(types.Fun("gs", []*types.Type{types.Num}, types.Str), func(x ...*val.Val) *val.Val {
+		logf("gs(%s)", describeReal(x[0]))
+		return val.Str("gs")
+	}))
+	add(&ref.Sig{Name: "hs", Params: []*gen.Ty{gen.Str}, Ret: N, Impl: func(ev *ref.Eval, x []*ref.V) (*ref.V, *ref.Fail) {
+		ev.Trace = append(ev.Trace, fmt.Sprintf("hs(%s)", x[0].Describe()))
+		return ref.NumV(5), nil
+	}}, val.Fun(types.Fun("hs", []*types.Type{types.Str}, types.Num), func(x ...*val.Val) *val.Val {
+		logf("hs(%s)", describeReal(x[0]))
+		return val.Num(5)
+	}))
 	add(&ref.Sig{Name: "h2", Params: []*gen.Ty{N, N}, Ret: N, Impl: func(ev *ref.Eval, x []*ref.V) (*ref.V, *ref.Fail) {
 		ev.Trace = append(ev.Trace, fmt.Sprintf("h2(%s,%s)", x[0].Describe(), x[1].Describe()))
 		return ref.NumV(x[0].N*10 + x[1].N), nil
@@ -286,6 +300,55 @@ func FailKind(msg string) string {
 // Run compiles src on a fresh engine and invokes it once.
 func Run(b Backend, h *Host, src string, env EnvSpec, ops ...oper.Operator) (o *Obs) {
 	return Run2(b, h, src, env, env, ops...)
+}
+
+// RunGo compiles src against a plain Go environment value and invokes it with the same value.
+func RunGo(b Backend, src string, env interface{}) (o *Obs) {
+	o = &Obs{}
+	e := NewEngine(b, nil)
+	var c yae.Callable
+	var err error
+	func() {
+		defer func() {
+			if r := recover(); r != nil {
+				o.Panic, o.Stage = fmt.Sprint(r), "compile"
+			}
+		}()
+		c, err = e.Compile(src, env)
+	}()
+	if o.Panic != "" {
+		return
+	}
+	if err != nil {
+		o.CompileErr = err.Error()
+		return
+	}
+	o.Invoke(c, env, nil)
+	return
+}
+
+// RunOn compiles src on a given engine against env and invokes it with callEnv.
+func RunOn(e *yae.Expr, src string, env, callEnv interface{}) (o *Obs) {
+	o = &Obs{}
+	var c yae.Callable
+	var err error
+	func() {
+		defer func() {
+			if r := recover(); r != nil {
+				o.Panic, o.Stage = fmt.Sprint(r), "compile"
+			}
+		}()
+		c, err = e.Compile(src, env)
+	}()
+	if o.Panic != "" {
+		return
+	}
+	if err != nil {
+		o.CompileErr = err.Error()
+		return
+	}
+	o.Invoke(c, callEnv, nil)
+	return
 }
 
 // Run2 compiles against env and invokes with callEnv.
